@@ -8,6 +8,10 @@
          DIEs refer to the lists by offset or by index in every list-capable form.  Observed: fetch by offset, by attribute
          (value + LocationParser.parse_from_attribute), raw fetch + translate_v5_entry, iter_location_lists / iter_range_lists,
          iter_CUs, iter_CU_range_lists_ex
+  pair : both generations present (.debug_loc + .debug_loclists, or .debug_ranges + .debug_rnglists) and units of mixed
+         versions: DWARFInfo.location_lists()/range_lists() return a LocationListsPair/RangeListsPair; fetch by offset for
+         units of either generation (a v5 unit's list must come from the v5 section, an older unit's from the old one), also
+         with the "wrong" unit and without a unit, and every forwarding method
   cls  : every (attribute name, form, version) of a pool × all forms × versions 2..5 → LocationParser classification
   raw  : damaged sections / random offsets → model vs code only (errors included)
 """
@@ -18,7 +22,8 @@ RULE = ('v4: entry kind, address (boundary pools), expression length 0..300/6553
         'sec: version 2-5, address size, byte order, DWARF32/64 per unit, 1-3 units, offset_count 0..5, list lengths 0..5, '
         'every entry kind, padded ULEB128, gaps before/between/after lists, view pairs, which lists are referenced and in '
         'which form (data1/2/4/8, sec_offset, loclistx/rnglistx) by which attribute; cls: exhaustive over the pool; '
-        'raw: byte flips / truncations of valid sections and random offsets. Non-trivial = distinct (call, case).')
+        'pair: both sections present, units of mixed versions in either order, fetch for the right / wrong / no unit, '
+        'every forwarding method; raw: byte flips / truncations of valid sections and random offsets. Non-trivial = distinct (call, case).')
 ASSUMPTIONS = ['io.BytesIO read/seek/tell semantics', 'struct.unpack for <>BHIQ',
                'DIE decoding (abbreviations, forms other than loclistx/rnglistx) is the subject of other properties: '
                'the model receives the (name, form, raw value) triples the harness assembled into .debug_info',
@@ -218,11 +223,13 @@ def fits(form, v):
     return v < {'DW_FORM_data1': 1 << 8, 'DW_FORM_data2': 1 << 16, 'DW_FORM_data4': 1 << 32}.get(form, 1 << 64)
 
 
-def gen_case(rng):
+def gen_case(rng, fix=None):
     what = rng.choice(['loc', 'rng'])
     ver = rng.choice([2, 3, 4, 5, 5, 5])
     le = rng.random() < 0.5
     asz = rng.choice([4, 8])
+    if fix:
+        what, ver, le, asz = fix.get('what', what), fix.get('ver', ver), fix.get('le', le), fix.get('asz', asz)
     naddrs = rng.choice([0, 1, 3, 6])
     addrs = [rnd_addr(rng, asz) for _ in range(naddrs)]
     units = []
@@ -497,6 +504,96 @@ def run_sec(ctx):
         check(ctx, 'sec', case, impl, m['model'], exp, wf)
 
 
+class PairWorld(World):
+    """both sections present: the list object is a LocationListsPair / RangeListsPair"""
+
+    def __init__(self, what, le, asz, d4, d5, addr, cus):
+        self.c = {'what': what, 'le': le, 'asz': asz}
+        self.d4, self.d5, self.addr, self.cus = d4, d5, addr, cus
+        info, abbrev = build_info(cus, le)
+        kw = {'loc': d4, 'loclists': d5} if what == 'loc' else {'ranges': d4, 'rnglists': d5}
+        self.di = mk_dwarf(le, asz, info=info, abbrev=abbrev, addr=addr, **kw)
+        self.lists = self.di.location_lists() if what == 'loc' else self.di.range_lists()
+        self._cus = None
+
+    def model_req(self, call, **kw):
+        c = self.c
+        rq = {'p': P, 'k': 'pair', 'what': c['what'], 'le': c['le'], 'asz': c['asz'], 'hex4': hx(self.d4), 'hex5': hx(self.d5),
+              'call': call, 'cus': [cu_json(cu) for cu in self.cus], 'addr': hx(self.addr),
+              ('loclists' if c['what'] == 'loc' else 'rnglists'): hx(self.d5)}
+        rq.update(kw)
+        return rq
+
+
+def pair_world(ctx, pc):
+    """pc: {'c4','c5','cus','addr'} → (PairWorld, r4, r5)"""
+    r4, r5 = ctx.driver.ask_many([pc['c4'], pc['c5']])
+    for r in (r4, r5):
+        if 'fatal' in r:
+            raise RuntimeError('driver: %s' % r['fatal'])
+    c5 = pc['c5']
+    w = PairWorld(c5['what'], c5['le'], c5['asz'], bytes.fromhex(r4['bytes']), bytes.fromhex(r5['bytes']),
+                  bytes.fromhex(pc['addr']), pc['cus'])
+    return w, r4, r5
+
+
+def run_pair(ctx):
+    rng = ctx.rng('pair')
+    todo = []
+    for _ in range(ctx.budget(250, 4000)):
+        what = rng.choice(['loc', 'rng'])
+        le = rng.random() < 0.5
+        asz = rng.choice([4, 8])
+        c4 = gen_case(rng, {'what': what, 'ver': rng.choice([2, 3, 4]), 'le': le, 'asz': asz})
+        c5 = gen_case(rng, {'what': what, 'ver': 5, 'le': le, 'asz': asz})
+        r4, r5 = ctx.driver.ask_many([c4, c5])
+        for r in (r4, r5):
+            if 'fatal' in r:
+                raise RuntimeError('driver: %s' % r['fatal'])
+        addr_pre = rng.choice([0, 8, 8, 12, 16])
+        addr = rnd_bytes(rng, addr_pre) + bytes.fromhex(r5['addrbytes']) + rnd_bytes(rng, rng.choice([0, 3]))
+        cus4, _ = gen_cus(rng, c4, r4, addr_pre)
+        cus5, _ = gen_cus(rng, c5, r5, addr_pre)
+        flip = rng.random() < 0.5                     # units of mixed versions, in either order
+        cus = cus5 + cus4 if flip else cus4 + cus5
+        base4, base5 = (len(cus5), 0) if flip else (0, len(cus4))
+        pc = {'c4': c4, 'c5': c5, 'cus': cus, 'addr': hx(addr)}
+        w = PairWorld(what, le, asz, bytes.fromhex(r4['bytes']), bytes.fromhex(r5['bytes']), addr, cus)
+        ctx.out.count('pair:%s:asz%d:%s:%s' % (what, asz, 'le' if le else 'be', type(w.lists).__name__))
+        l4 = [it for it in r4['units'][0]['items'] if it['t'] == 'list']
+        l5 = [(ui, it) for ui, ur in enumerate(r5['units']) for it in ur['items'] if it['t'] == 'list']
+        calls = []
+        for it in l4:
+            calls.append(('at', {'off': it['off'], 'cuidx': base4}, it['tr'], it['wf'] and r4['wf'], 'old'))
+        for ui, it in l5:
+            calls.append(('at', {'off': it['off'], 'cuidx': base5 + ui}, it['tr'], it['wf'] and r5['wf'], 'v5'))
+            if what == 'rng':
+                calls.append(('at_ex', {'off': it['off']}, it['raw'], it['wf'] and r5['wf'], 'v5'))
+                calls.append(('at_ex_tr', {'off': it['off'], 'cuidx': base5 + ui}, it['tr'], it['wf'] and r5['wf'], 'v5'))
+        # the other section's offsets with this unit, and no unit at all: model vs code
+        if l4:
+            calls.append(('at', {'off': l4[0]['off'], 'cuidx': base5}, None, False, 'cross'))
+            calls.append(('at', {'off': l4[0]['off'], 'cuidx': None}, None, False, 'nounit'))
+        if l5:
+            calls.append(('at', {'off': l5[0][1]['off'], 'cuidx': base4}, None, False, 'cross'))
+        calls.append(('iter', {}, None, False, 'refused'))
+        allwf5 = r5['wf'] and all(it['wf'] for _, it in l5)
+        if what == 'rng':
+            calls.append(('iter_cus', {}, [ur['hdr'] for ur in r5['units']], r5['wf'], 'v5'))
+            calls.append(('iter_cus_ex', {}, [ur['lists'] for ur in r5['units']], allwf5, 'v5'))
+        else:
+            calls.append(('iter_cus', {}, None, False, 'refused'))
+        for call, kw, exp, wf, tag in calls:
+            todo.append((w, pc, call, kw, exp, wf, tag))
+    models = ctx.driver.ask_many([w.model_req(call, **kw) for (w, pc, call, kw, exp, wf, tag) in todo])
+    for (w, pc, call, kw, exp, wf, tag), m in zip(todo, models):
+        if 'fatal' in m:
+            raise RuntimeError('driver: %s on pair %s %r' % (m['fatal'], call, kw))
+        impl = run_impl(lambda: w.impl(call, **kw))
+        ctx.out.count('pair:call:%s:%s:%s' % (call, tag, 'ok' if 'ok' in impl else 'err'))
+        check(ctx, 'pair', dict(pc, call=call, kw=kw), impl, m['model'], exp if wf else None, wf)
+
+
 CLS_NAMES = ['DW_AT_location', 'DW_AT_string_length', 'DW_AT_const_value', 'DW_AT_return_addr', 'DW_AT_data_member_location',
              'DW_AT_frame_base', 'DW_AT_segment', 'DW_AT_static_link', 'DW_AT_use_location', 'DW_AT_vtable_elem_location',
              'DW_AT_call_value', 'DW_AT_GNU_call_site_value', 'DW_AT_GNU_call_site_target', 'DW_AT_GNU_call_site_data_value',
@@ -593,6 +690,7 @@ def run(ctx):
     run_v4(ctx)
     run_cls(ctx)
     run_sec(ctx)
+    run_pair(ctx)
     run_raw(ctx)
 
 
@@ -614,6 +712,15 @@ def replay(ctx, payload):
         exp = {'cls': r['expect'], 'has': r['expect'] != 'neither'}
         model = {'ok': {'cls': r['model'], 'has': r['model_has_location']}}
         res.update(impl=impl, expect=exp, model=model, fails=(impl != {'ok': exp} or impl != model))
+    elif stream == 'pair':
+        cus = [dict(cu, dies=[[tuple(a) for a in die] for die in cu['dies']]) for cu in case['cus']]
+        w, r4, r5 = pair_world(ctx, dict(case, cus=cus))
+        call, kw = case['call'], case['kw']
+        impl = run_impl(lambda: w.impl(call, **kw))
+        m = ctx.driver.ask(w.model_req(call, **kw))
+        exp = v.get('expect')
+        fails = impl != m['model'] or (exp is not None and impl != {'ok': exp})
+        res.update(impl=impl, expect=exp, model=m['model'], fails=fails)
     else:
         c = case['asm']
         r = ctx.driver.ask(c)
